@@ -108,7 +108,8 @@ partial def evalSpec (st : DriverState) : Sexp → Res Spec
       Res.ofExcept (child sp i)
   | .list [.atom "onelevel", s] => do
       let sp ← evalSpec st s
-      Res.ofExcept (oneLevel sp)
+      -- the Python binding (optree.cpp:279-287) returns `None` for a leaf treespec
+      if sp.isLeaf then .err (.user 999) else Res.ofExcept (oneLevel sp)
   | .list [.atom "compose", a, b] => do
       let a ← evalSpec st a
       let b ← evalSpec st b
